@@ -27,11 +27,16 @@ def lockset_rule(res, fx, cls, funcs, tables, lock, rule, exceptions, floor):
             continue
         bad = []
         cnt = 0
-        for m in f.walk():
+        for m0 in f.walk():
+            # an access is a use of the member — directly, or through a local reference that is another name for it; binding such a reference is not itself an access
+            m = A.strip_casts(m0) if (m0['k'] == 'DeclRefExpr' and 'alias_i' in m0) else m0
+            if m0['k'] == 'MemberExpr' and m0.get('alias_binding'):
+                continue
             if m['k'] == 'MemberExpr' and m.get('dk') == 'Field' and m.get('n') in tables and (m.get('q') or '').startswith(cls + '::'):
                 cnt += 1
+                m_use = m0
                 key = L.access_key(m, lock[1])
-                if key not in cl.held_at(f, m):
+                if key not in cl.held_at(f, m_use):
                     # merely binding the table to a reference parameter of a callee is not an access
                     p = m.parent
                     if p is not None and p.is_call() and m in p.args():
@@ -131,22 +136,33 @@ def run(res, tier):
            key='HANDOFF-ATOMIC|%s|mark' % f.q,
            message='DispatchPendingMessagesUnsafe can hand a client\'s Messages to a thread without marking the client as being handled (or without removing it from the pending table): a second thread picks up the same client concurrently or the Messages are handled twice')
     f = fx.fn1(TP + '::SendMessageToThreadPool')
+    # the queue a new Message goes to: every use of _deferredMessages / _pendingMessages as the receiver of GetOrPut() (directly, or as an arm of `c ? a : b`, whose arms are
+    # separate CFG blocks) is dominated by the being-handled flag of this client being true / false
+    flagvars = set()
+    for v in f.walk():
+        if v['k'] == 'VarDecl' and v['ch']:
+            c0 = A.strip_casts(v['ch'][0])
+            if c0['k'] == 'CXXMemberCallExpr' and c0.receiver() is not None and A.strip_casts(c0.receiver()).get('n') == '_registeredClients' and c0.args() and A.strip_casts(c0.args()[0]).get('d') == f.params[0]['d']:
+                flagvars.add(v['d'])
+
+    def flag_truth(node):
+        out = set()
+        for (cn, t) in G.atoms_at(f, node):
+            c1 = G.local_init(f, cn)
+            if c1['k'] == 'UnaryOperator' and c1.get('op') == '*' and A.strip_casts(c1['ch'][0]).get('d') in flagvars:
+                out.add(t)
+        return out
+    uses = {'_deferredMessages': [], '_pendingMessages': []}
+    for c in f.walk():
+        if c['k'] == 'CXXMemberCallExpr' and (c.get('q') or '').endswith('::GetOrPut') and c.receiver() is not None:
+            for x in c.receiver().walk():
+                if x['k'] == 'MemberExpr' and x.get('n') in uses:
+                    uses[x['n']].append(x)
     sel = None
-    for n in f.walk():
-        if n['k'] == 'ConditionalOperator':
-            c, pol = A.bool_polarity(n['ch'][0], True)
-            c = G.local_init(f, c)
-            a, b = A.strip_casts(n['ch'][1]), A.strip_casts(n['ch'][2])
-            if not pol:
-                a, b = b, a
-            if a.get('n') == '_deferredMessages' and b.get('n') == '_pendingMessages' and c['k'] == 'UnaryOperator' and c.get('op') == '*':
-                sel = (n, A.strip_casts(c['ch'][0]).get('d'))
-    flagsrc = False
-    if sel:
-        for v in f.walk():
-            if v['k'] == 'VarDecl' and v['d'] == sel[1] and v['ch']:
-                c0 = A.strip_casts(v['ch'][0])
-                flagsrc = c0['k'] == 'CXXMemberCallExpr' and A.strip_casts(c0.receiver()).get('n') == '_registeredClients' and A.strip_casts(c0.args()[0]).get('d') == f.params[0]['d']
+    if uses['_deferredMessages'] and uses['_pendingMessages'] and flagvars:
+        okq = all(flag_truth(x) == set([True]) for x in uses['_deferredMessages']) and all(flag_truth(x) == set([False]) for x in uses['_pendingMessages'])
+        sel = (uses['_deferredMessages'][0], sorted(flagvars)[0]) if okq else None
+    flagsrc = bool(flagvars)
     res.ob('HANDOFF-ATOMIC', f.where(), 'SendMessageToThreadPool appends to _deferredMessages iff the client\'s being-handled flag is set, else to _pendingMessages', bool(sel) and flagsrc, function=f.q,
            how='((*isBeingHandled) ? _deferredMessages : _pendingMessages).GetOrPut(client)', key='HANDOFF-ATOMIC|%s|queue-choice' % f.q,
            message='SendMessageToThreadPool no longer defers Messages of a client that is currently being handled: they are dispatched to a second thread while the first is still running the client\'s handler')
